@@ -10,13 +10,13 @@ theorem compact_inv (d : Dict) (b : RBuf) (hinv : RInv d b) :
   · exact ⟨hinv.base_al, Nat.zero_mod _, by simp only; omega⟩
   · exact hinv
 
-theorem readStep_err (d : Dict) (b b1 : RBuf) (ev : ReadEv) (rest : Bytes) (hinv : RInv d b)
-    (h : readStep b ev rest = .err b1) : RInv d b1 := by
+theorem readStep_err (d : Dict) (b b1 : RBuf) (ev : ReadEv) (rest : Bytes) (k : Nat) (hinv : RInv d b)
+    (h : readStep b ev rest = .err b1 k) : RInv d b1 := by
   unfold readStep at h
   split at h
   · cases h
   · cases ev with
-    | fail => simp only [ReadRes.err.injEq] at h; rw [← h]; exact compact_inv d b hinv
+    | fail k' => simp only [ReadRes.err.injEq] at h; rw [← h.1]; exact compact_inv d b hinv
     | deliver c => simp at h
 
 theorem readStep_got (d : Dict) (b b1 : RBuf) (ev : ReadEv) (rest rest1 : Bytes) (n : Nat) (hinv : RInv d b)
@@ -25,7 +25,7 @@ theorem readStep_got (d : Dict) (b b1 : RBuf) (ev : ReadEv) (rest rest1 : Bytes)
   split at h
   · cases h
   · cases ev with
-    | fail => simp at h
+    | fail k' => simp at h
     | deliver c =>
       simp only [ReadRes.got.injEq] at h
       obtain ⟨h1, _, _⟩ := h
@@ -75,8 +75,8 @@ theorem recv_total (t : Ty) (h : t.WF) :
         | oom =>
           refine ⟨_, _, _, _, rfl, by simp, hinv, ?_⟩
           intro occ ho; cases ho
-        | err b1 =>
-          have hri := readStep_err t.dict b b1 ev rest hinv hrs
+        | err b1 k =>
+          have hri := readStep_err t.dict b b1 ev rest _ hinv hrs
           refine ⟨_, _, _, _, rfl, by simp, hri, ?_⟩
           intro occ ho; cases ho
         | got b1 rest1 n =>
